@@ -127,3 +127,22 @@ func init() {
 	// --- host-side misuse
 	ip("(*runtime.GoFunction).SolemnlyDeclareCompliance:string", 1, "'Invalid safety flags': host programming error at registration time; flags are constants (R-REGTABLE)")
 }
+
+// recursionTable: call-graph cycles whose depth is bounded, keyed
+// "cycle:<smallest member>", with the bound argument.
+var recursionTable = map[string]string{
+	"cycle:(*ir.CodeBuilder).getRegister":           "depth = lexical nesting of functions (looks a name up in the parent builder); bounded by the parser's nesting, see known finding on the parser cycle",
+	"cycle:(*lib/iolib.File).Seek":                  "the self-call passes io.SeekStart, whose branch does not recurse (depth <= 2)",
+	"cycle:(*runtime.Runtime).Close":                "one level per pushed context (Close pops a context and calls itself)",
+	"cycle:(*runtime.Runtime).RefactorCodeConsts":   "depth = nesting of function prototypes produced by the compiler",
+	"cycle:(*runtime.Termination).DebugInfo":        "interface self-call down an acyclic continuation chain: each hop goes to c.parent, created earlier",
+	"cycle:(*runtime.Termination).Parent":           "interface self-call down an acyclic continuation chain",
+	"cycle:(*runtime.messageHandlerCont).Next":      "interface self-call down an acyclic continuation chain (c.c was created earlier)",
+	"cycle:(*runtime.breader).read":                 "read -> readString -> read(&length): the inner call reads a fixed-size integer (depth 2)",
+	"cycle:(*runtime.breader).readCode":             "depth = prototype nesting in the dumped chunk; every level consumes >= 59 budgeted input bytes (not claimed for forged chunks > 100 MB)",
+	"cycle:(*runtime.bwriter).write":                "write -> writeString -> write(length): depth 2",
+	"cycle:(*runtime.bwriter).writeCode":            "depth = prototype nesting produced by the compiler",
+	"cycle:(ir.Label).String":                       "formats itself with an integer verb; fmt calls String() only for %v %s %x %X %q (call-graph imprecision, no real cycle)",
+	"cycle:(ir.Register).String":                    "formats itself with an integer verb (call-graph imprecision, no real cycle)",
+	"cycle:(ops.Op).String":                         "stringer-generated: the fallback formats the integer value with %d (call-graph imprecision, no real cycle)",
+}
